@@ -225,6 +225,8 @@ func configs(tier string) []config {
 		{"fine", []int64{0, ms, twoUnits, twoUnits - 1}, []int64{0, -ms, 976563}},
 		{"sat", []int64{0, 1, lastExact}, []int64{0, 1, -1}},
 		{"wrap", []int64{0, 8 * sec, 56 * sec, 64*sec + 500*ms}, []int64{0, 64 * sec, 70 * sec}},
+		// between the largest encodable offset (0x1FFD/1024 s) and 8 s everything is "too large" (0x1FFE)
+		{"sat8", []int64{0, 7999*ms + 500_000, 8*sec - 1, 8 * sec}, []int64{0, 1}},
 	}
 	for _, p := range profiles {
 		out = append(out, config{Name: "A-" + p.name, Mode: modeRecorder, Starts: []int64{65534},
